@@ -278,3 +278,69 @@ Section Ops.
     repeat split; [exact A|exact B|lia].
   Qed.
 End Ops.
+
+(* ---- key generation by rejection (paseto-v3 SecretKey::random: draw 48 bytes until they are a valid scalar).
+        Modelled with explicit fuel; running out of fuel is reported as such and excluded by the statements. ---- *)
+Section Generation.
+  Variable O : oracle.
+
+  Inductive gen_out := GenKey (k : bytes) | GenRngFailed | GenOutOfFuel.
+
+  Fixpoint v3_random (R : rng) (i : nat) (fuel : nat) : gen_out * nat :=
+    match fuel with
+    | 0 => (GenOutOfFuel, i)
+    | S f =>
+        match R i 48 with
+        | None => (GenRngFailed, S i)
+        | Some b => match p384_pk O b with Some _ => (GenKey b, S i) | None => v3_random R (S i) f end
+        end
+    end.
+
+  (* whatever key comes out was served by the source at the last call made, is a valid scalar, and — when the
+     source honours the requested length — is accepted by the key decoder of both v3 backends *)
+  Theorem v3_random_key_is_a_draw R i fuel k j :
+    v3_random R i fuel = (GenKey k, j) -> i < j /\ R (j - 1) 48 = Some k /\ p384_pk O k <> None.
+  Proof.
+    revert i. induction fuel as [|f IH]; intros i; cbn [v3_random]; [discriminate|].
+    destruct (R i 48) as [b|] eqn:E; [|discriminate].
+    destruct (p384_pk O b) eqn:Ep.
+    - intros H; inversion H; subst. replace (S i - 1) with i by lia. repeat split; [lia|exact E|congruence].
+    - intros H. destruct (IH (S i) H) as (A & B & C). repeat split; [lia|exact B|exact C].
+  Qed.
+
+  Theorem v3_random_key_is_accepted R i fuel k j :
+    (forall n x, R n 48 = Some x -> length x = 48) ->
+    v3_random R i fuel = (GenKey k, j) ->
+    v3_decode_secret O k = Ok k /\ lc_decode_secret O k = Ok k.
+  Proof.
+    intros HL H. destruct (v3_random_key_is_a_draw R i fuel k j H) as (_ & Hd & Hv).
+    pose proof (HL _ _ Hd) as Lk.
+    unfold v3_decode_secret, lc_decode_secret. rewrite Lk. cbn [Nat.eqb negb].
+    destruct (p384_pk O k); [split; reflexivity|congruence].
+  Qed.
+
+  (* fail closed: a failure of the source at any call of the loop ends it with the failure, and no key *)
+  Theorem v3_random_fail_closed R i fuel j :
+    v3_random R i fuel = (GenRngFailed, j) -> i < j /\ R (j - 1) 48 = None.
+  Proof.
+    revert i. induction fuel as [|f IH]; intros i; cbn [v3_random]; [discriminate|].
+    destruct (R i 48) as [b|] eqn:E.
+    - destruct (p384_pk O b); [discriminate|]. intros H. destruct (IH (S i) H) as [A B]. split; [lia|exact B].
+    - intros H; inversion H; subst. replace (S i - 1) with i by lia. split; [lia|exact E].
+  Qed.
+
+  (* every rejected draw was an invalid scalar: the loop never discards a usable key *)
+  Theorem v3_random_skips_only_invalid R i fuel out j n x :
+    v3_random R i fuel = (out, j) -> i <= n -> S n < j -> R n 48 = Some x -> p384_pk O x = None.
+  Proof.
+    revert i. induction fuel as [|f IH]; intros i; cbn [v3_random].
+    - intros H; inversion H; subst. lia.
+    - destruct (R i 48) as [b|] eqn:E.
+      + destruct (p384_pk O b) eqn:Ep.
+        * intros H; inversion H; subst. lia.
+        * intros H Hi Hj Hx. destruct (Nat.eq_dec n i) as [->|Hne].
+          -- rewrite E in Hx. inversion Hx; subst. exact Ep.
+          -- apply (IH (S i) H); [lia|exact Hj|exact Hx].
+      + intros H; inversion H; subst. lia.
+  Qed.
+End Generation.
